@@ -5,6 +5,8 @@ import json
 CLAIMED = {
  'C02': ('proof', 'Theorems: results modulo 2^size, add carry (word/byte), word add overflow formula = signed overflow, borrow (incl. sign-extension preserving unsigned order), compare flags at each size, truncating division/remainder, MIN/-1 wraps, zero divide faults before any write, shift results for every count, opcode -> arm; model tied to the code on every data-processing opcode x operand forms x boundary/random values x flags.',
          'Coq proof of the arithmetic of each dispatch arm + differential correspondence over all ALU opcodes', 'DESIGN.md 7 C02'),
+ 'C03': ('proof', 'Theorems for every operand, register file and memory: effective address of the 7 direct and 4 deferred memory modes = architected (base + displacement sign-extended from its encoded width) mod 2^32; sources extended by the (expanded) operand type (bytes unsigned, halfwords/words signed); literals/immediates sign-extended from their encoded size; literal/immediate destinations rejected with no state change; a memory store is one bus write of the destination size that changes exactly 4/2/1 RAM bytes big-endian and no register; a register store changes that register only; expanded types: prefix type on the operand, inherited type otherwise, handed on to the following operands. Correspondence: MOVx with all 17x17 mode pairs x expanded types x base registers x boundary displacements, MOVAW/PUSHAW probes, operand positions 2-3.',
+         'Coq proof over effective_address / read_op / write_op / decoder + differential correspondence', 'DESIGN.md 7 C03'),
  'C04': ('proof', 'Theorems: the opcode tables translated from the source on every run equal the architected opcode map (all 256 first bytes, all 256 second bytes after 0x30: defined-ness, operand size, operand kinds); for EVERY byte string the decoder returns an instruction of 1..26 bytes or an error, never overruns its 32-byte buffer, never exhausts its recursion bound (also for any non-crashing byte source); reserved descriptors and nested prefixes are rejected. Partial: no encoder round-trip theorem yet; operand contents are tied to the architected encoding by exhaustive-by-signature differential runs and an independent length/legality monitor.',
          'Coq proof (table equality by computation lifted to all bytes; totality and length bound by structural induction) + differential correspondence + architected-length monitor', 'DESIGN.md 7 C04'),
  'C05': ('proof', 'The branch/return conditions are translated from the source on every run and proved equal to the architected predicate for all 42 opcodes x 16 flag states; the model executes exactly that predicate with the prescribed PC/SP effect; exhaustive correspondence over opcode x flags x displacements plus an independent architected-predicate monitor.',
